@@ -311,6 +311,20 @@ def run(ctx):
                     ctx.fail(case, 'verdicts differ between dict %r, file %r and re-serialised %r' % (va, vb, vc))
             except Exception as e:
                 ctx.bump('verdict.raised.' + type(e).__name__)
+            # ---- the set written again AFTER data has been verified with it (object, dictionary and file were all used
+            # above): the same text as before - verifying does not change what is written
+            try:
+                t_after = c0.to_json()
+                if strip_meta_text(t_after) != strip_meta_text(t1):
+                    ctx.fail(case, 'after data was verified with the set it serialises differently: %r -> %r'
+                             % (first_diff(t1, t_after), first_diff(t_after, t1)))
+                t_dict = load_from({'fields': noisy}).to_json()
+                if strip_meta_text(t_dict) != strip_meta_text(t1):
+                    ctx.fail(case, 'after data was verified with the dictionary it serialises differently: %r -> %r'
+                             % (first_diff(t1, t_dict), first_diff(t_dict, t1)))
+            except Exception as e:
+                ctx.fail(case, 'after data was verified with the set it can no longer be written: %s: %s' % (type(e).__name__, str(e)[:200]))
+                continue
             # ---- model: surviving keys and their order
             payloads.append([(nm, [(k, 0) for k in d]) for nm, d in noisy.items()])
             expect.append((case, [(nm, list(d.keys())) for nm, d in parsed['fields'].items()]))
